@@ -43,7 +43,7 @@ func runC11(x *mc.X) {
 	case "only-if-cached-stale":
 		ccv, reqCC, elapsedMenu = "max-age=5", "only-if-cached", []int64{10, 50, 5000}
 	case "swr":
-		ccv, elapsedMenu = "max-age=5, stale-while-revalidate=100", []int64{10, 50, 90}
+		ccv, elapsedMenu, follow = "max-age=5, stale-while-revalidate=100", []int64{10, 50, 90}, "304-bg"
 	case "sie-500":
 		ccv, elapsedMenu, follow = "max-age=5, stale-if-error=100", []int64{10, 50, 90}, "500"
 	case "sie-error":
@@ -97,14 +97,26 @@ func runC11(x *mc.X) {
 		st = &oracle.Stored{Status: tk.Status, Header: tk.Header, ReqTime: tk.ReqTime, RespTime: tk.RespTime}
 		world.Advance(secs(elapsed))
 	}
+	var h304 http.Header
+	var c304 *world.Call
 	answerFn(w, func(o *world.Origin, c *world.Call) (*http.Response, error) {
 		cond := c.Header.Get("If-None-Match") != "" || c.Header.Get("If-Modified-Since") != ""
+		if follow == "304-bg" && cond {
+			resp := o.Respond(c, RS{Status: 304, NoTok: true, H: poisonH(H("ETag", `"v1"`))})
+			h304, c304 = resp.Header.Clone(), c
+			return resp, nil
+		}
 		switch {
 		case follow == "304" && cond:
-			return o.Respond(c, RS{Status: 304, NoTok: true, H: poisonH(H("ETag", `"v1"`))}), nil
+			resp := o.Respond(c, RS{Status: 304, NoTok: true, H: poisonH(H("ETag", `"v1"`))})
+			h304, c304 = resp.Header.Clone(), c
+			return resp, nil
 		case follow == "500":
-			return o.Respond(c, RS{Status: 500, H: poisonH(hdrIf(nil, "Age", originAge))}), nil
+			return o.Respond(c, RS{Status: 500, H: poisonH(hdrIf(nil, "Age", originAge)), Delay: secs(delay)}), nil
 		case follow == "error":
+			if err := world.Sleep(c.Req, secs(delay)); err != nil {
+				return nil, err
+			}
 			return nil, errOrigin
 		}
 		return o.Respond(c, RS{Status: 200, H: poisonH(hdrIf(H("Cache-Control", "max-age=100", "ETag", `"v2"`), "Age", originAge)), Delay: secs(delay)}), nil
@@ -123,7 +135,18 @@ func runC11(x *mc.X) {
 	x.State(path, originAge, fmt.Sprint(skew, delay, poison, elapsed), obsClass(o2), o2.Header.Get("Age"))
 	x.Note(path + " -> " + obsClass(o2))
 	x.Sample(map[string]any{"path": path, "origin_age": originAge, "date_skew_s": skew, "delay_s": delay, "origin_sends_cache_fields": poison, "elapsed_s": elapsed, "observed": o2.String(), "x_from_cache": o2.Header.Values("X-From-Cache")})
-	checkC11Fields(x, path, o2, o1, st, now)
+	checkC11Fields(x, path, o2, o1, st, now.Add(o2.Dur)) // the age is that at the moment the response is handed over
+	// a further request after a 304 (foreground or background): the freshened entry must report truthfully too
+	if c304 != nil && st != nil && o2.Err == nil && o2.Panic == nil {
+		st2 := st.ApplyNotModified(h304, c304.At, c304.DoneAt)
+		world.Advance(secs(2))
+		answer(w, RS{Status: 200, H: H("Cache-Control", "no-store")})
+		now3 := time.Now()
+		o3 := get(w, U)
+		logObs(x, "GET 2 s after the 304", o3)
+		x.Nontrivial(path + "/after-304/" + obsClass(o3))
+		checkC11Fields(x, path+"/after-304", o3, o1, st2, now3)
+	}
 }
 
 func checkC11Fields(x *mc.X, path string, o, stored *world.Obs, st *oracle.Stored, now time.Time) {
